@@ -9,6 +9,7 @@ import (
 	"os"
 	"time"
 
+	codectypes "github.com/cosmos/cosmos-sdk/codec/types"
 	sdk "github.com/cosmos/cosmos-sdk/types"
 
 	"github.com/regen-network/regen-ledger/x/data/v3/server/hasher"
@@ -108,8 +109,9 @@ func (g GenesisSpec) ToChainGenesis() (chain.Genesis, error) {
 
 // TStep is one recorded step.
 type TStep struct {
-	Kind    string          `json:"kind"` // message kind, "block", "restart", "faucet"
-	Msg     json.RawMessage `json:"msg,omitempty"`
+	Kind    string          `json:"kind"`          // message kind, "block", "restart", "faucet"
+	Msg     json.RawMessage `json:"msg,omitempty"` // human-readable rendering (may be lossy, e.g. huge durations)
+	Bin     []byte          `json:"bin,omitempty"` // protobuf Any bytes: what Replay decodes
 	TimeNs  int64           `json:"time_ns,omitempty"`
 	Addr    string          `json:"addr,omitempty"`
 	Coins   string          `json:"coins,omitempty"`
@@ -130,7 +132,11 @@ func (tr *Trace) AddMsg(c *chain.Chain, kind string, msg sdk.Msg) {
 	bz, err := c.Cdc.MarshalInterfaceJSON(msg)
 	st := TStep{Kind: kind, Msg: bz, MsgType: sdk.MsgTypeURL(msg)}
 	if err != nil {
-		st.Err = "marshal: " + err.Error()
+		st.Msg = nil
+		st.Err = "json: " + err.Error()
+	}
+	if any, err := codectypes.NewAnyWithValue(msg); err == nil {
+		st.Bin, _ = any.Marshal()
 	}
 	tr.Steps = append(tr.Steps, st)
 }
@@ -227,8 +233,16 @@ func Replay(tr *Trace, prof *Profile, fail FailFunc, mons ...Monitor) *World {
 			w.Faucet(a, c)
 		default:
 			var msg sdk.Msg
-			if err := w.C.Cdc.UnmarshalInterfaceJSON(s.Msg, &msg); err != nil {
-				fail("trace: cannot decode message: %v", err)
+			if len(s.Bin) > 0 {
+				var any codectypes.Any
+				if err := any.Unmarshal(s.Bin); err != nil {
+					fail("harness: trace: cannot decode message: %v", err)
+				}
+				if err := w.C.Cdc.UnpackAny(&any, &msg); err != nil {
+					fail("harness: trace: cannot unpack message: %v", err)
+				}
+			} else if err := w.C.Cdc.UnmarshalInterfaceJSON(s.Msg, &msg); err != nil {
+				fail("harness: trace: cannot decode message: %v", err)
 			}
 			w.Deliver(s.Kind, msg)
 		}
